@@ -318,3 +318,108 @@ def run_gate(chk, build, factor):
         if i in (3, 200) and len(chk.coverage["samples"]) < 6:
             chk.coverage["samples"].append({"harness_line": lines[i], "impl": impl[i][:1500], "oracle": str(oracle)})
     return n, distinct
+
+
+# ---------------------------------------------------------------------------------------------
+# handler-level runs on a constructed NodeSessionState (hook node_session::verif_gate)
+
+UNIT_KINDS = ["sinit", "schal", "sok", "sclose", "cinit", "cok", "cclose"]
+UNIT_AUTH = {"sinit": "AsServer SWaitName", "schal": "AsServer (SWaitReply 4242 (dg_sym 0 4242))",
+             "sok": "AsServer (SOk 0)", "sclose": "AsServer SClose", "cinit": "AsClient CWaitStatus",
+             "cok": "AsClient COk", "cclose": "AsClient CClose"}
+UNIT_ADV = ["-", "R", "P", "D", "NONE", "R,P,D", "R,D", "P,NS"]
+UNIT_OPS = ["cast R", "cast P", "cast D", "cast NONE", "cast NS", "call R 3 -", "call P 5 -", "call D 6 50",
+            "reply 55 1", "kspawn 55", "kspawn 55 56:7", "kterm 55", "kjoin 1 1 55", "kjoin 1 2 55 57",
+            "kleave 1 1 55", "kenum 1 2", "kenum 9 9", "ksessions 5:6", "kping 5", "kpong 3", "kready", "knone",
+            "mnone", "nempty", "name 1 2 3", "name 100 2 3", "sstatus 0", "schal 7 8 99", "cchal 5 k:0:I",
+            "cchal 5 k:1:I", "sack k:0:I", "cstatus 1", "empty"]
+
+
+def gen_unit(chk, n):
+    rng = chk.rng
+    out = []
+    for k in UNIT_KINDS:
+        for adv in UNIT_ADV:
+            for op in UNIT_OPS:
+                out.append((k, adv, [op, "cast R", "kspawn 77"]))
+    for _ in range(n):
+        k = rng.choice(UNIT_KINDS + ["sok", "cok", "schal"])
+        adv = rng.choice(UNIT_ADV)
+        ops = [rng.choice(UNIT_OPS) for _ in range(rng.randint(2, 8))]
+        out.append((k, adv, ops))
+    return out
+
+
+def run_units(chk, build, factor):
+    quick = chk.tier == "quick"
+    cases = gen_unit(chk, (1500 if quick else 30000) * factor)
+    lines = [f"unit {k} {adv} " + " ; ".join(ops) for k, adv, ops in cases]
+    impl = run_harness(build, "eng_gate", lines, shards=8)
+    parsed = [parse_term(x) for x in impl]
+    exprs_model, exprs_oracle = [], []
+    for c, t in zip(cases, parsed):
+        hdr, steps = t[1], t[2]
+        rpid, adv0 = hdr[1], hdr[2]
+        kind = c[0]
+        server = kind.startswith("s")
+        cfg = f"(mkConfig {'true' if server else 'false'} 0 100 101 false 0)"
+        peer = "None" if kind in ("sinit", "cinit") else "(Some (1, 1))"
+        st0 = f"(mkS ({UNIT_AUTH[kind]}) {peer} 0 ROpen [] [{'; '.join(map(str, adv0))}] true)"
+        msgs, obs = [], []
+        for st in steps:
+            s = st[1:]
+            # infer_env expects (msg, flags, frames, deliv, proxies, groups, listed, rnd)
+            env = infer_env((s[0], s[1], s[2], s[3], s[4], s[5], [], s[7]), rpid)
+            msgs.append(f"({show_term(s[0])}, {env})")
+        exprs_model.append(f"run_unit dg_sym {cfg} {st0} [" + "; ".join(msgs) + "]")
+        effs = impl_effects([(s[1], ("tuple", "true", "true", "true"), s[3], s[4], s[5], s[6], [], s[8]) for s in steps], None)
+        for st, eff in zip(steps, effs):
+            advb = st[7][1]
+            obs.append(f"({st[2][1]}, [{'; '.join(map(str, advb))}], [{rpid}], [{'; '.join(eff)}])")
+        exprs_oracle.append(f"check_C17 [{'; '.join(obs)}]")
+    res = coq_eval("C17unit", IMPORTS, exprs_model + exprs_oracle, shards=min(NCPU, 12))
+    n = len(cases)
+    distinct = set()
+    for i, c in enumerate(cases):
+        steps = parsed[i][2]
+        chk.coverage["evaluations"] += 1
+        chk.count("unit.kind." + c[0])
+        mview = parse_term(res[i])
+        mv = fold_model_view([(x[1], "false", x[5]) for x in mview], len(mview))
+        m_steps, i_steps = [], []
+        for x, v in zip(mview, mv):
+            m_steps.append({"kind": 1 if x[1] == "true" else (2 if x[2] == "true" else 0),
+                            "stopped": not v["alive"], "frames": v["frames"], "deliv": v["deliv"],
+                            "proxies": v["proxies"] if v["alive"] else None,
+                            "groups": v["groups"] if v["alive"] else None,
+                            "adv": sorted(x[3]), "remote": sorted(x[4]) if v["alive"] else None})
+        for st in steps:
+            stopped = st[2][3] == "true"
+            i_steps.append({"kind": st[2][2], "stopped": stopped, "frames": [canon(f) for f in st[3]],
+                            "deliv": [tuple(d) if isinstance(d, tuple) else d for d in st[4]],
+                            "proxies": None if stopped else sorted(((p[1], p[2]) for p in st[5]), key=repr),
+                            "groups": None if stopped else sorted((g[1], g[2], sorted(g[3])) for g in st[6]),
+                            "adv": sorted(st[7][2]), "remote": None if stopped else sorted(st[7][3])})
+        oracle = res[n + i]
+        delivered = any(st[4] for st in steps)
+        if delivered or any(st[5] for st in steps):
+            distinct.add(lines[i])
+        for st in steps:
+            for d in st[4]:
+                chk.count("unit.effect." + (d[0] if isinstance(d, tuple) else str(d)))
+        desc = json.dumps({"kind": "unit", "harness_line": lines[i], "impl": impl[i][:5000], "model": res[i][:4000]},
+                          indent=1)
+        if oracle != "true":
+            chk.violation("session handler: protected effect while not authenticated, or cast/call delivered to a pid "
+                          "that is not advertised / not remotable",
+                          "C17 oracle check_C17 rejects the real NodeSession::handle's observations\n" + desc)
+        elif m_steps != i_steps:
+            chk.coverage["disagreements_checked"] += 1
+            first = next((j for j, (a, b) in enumerate(zip(m_steps, i_steps)) if a != b), min(len(m_steps), len(i_steps)))
+            chk.violation("model/implementation disagree (NodeSession::handle vs Gate.v)",
+                          f"correspondence E3:eng_gate unit view differs at step #{first} (oracle accepts)\n"
+                          f"model: {m_steps[first] if first < len(m_steps) else None}\nimpl:  {i_steps[first] if first < len(i_steps) else None}\n" + desc,
+                          failing_input=False)
+        if i == 11 and len(chk.coverage["samples"]) < 8:
+            chk.coverage["samples"].append({"harness_line": lines[i], "impl": impl[i][:1200], "oracle": oracle})
+    return n, distinct
